@@ -48,7 +48,7 @@ func GenesisForProfile(profile string, hs uint64) GenesisCfg {
 		pool.TotalReward = sdk.NewInt64Coin(Denom, minted)
 		cfg.Pool = &pool
 	}
-	if profile == "faults" {
+	if profile == "faults" || profile == "genesis" {
 		p := DefaultNodeParams(Denom)
 		p.FishmenInfo = MakeAccount("a1").Addr.String() + "," + MakeAccount("a2").Addr.String()
 		cfg.NodeParams = &p
@@ -119,13 +119,13 @@ func ReplayOpt(path string, out io.Writer, restarts bool) int {
 		resetGlobals()
 		c := NewChain(GenesisForProfile(h.profile, h.id))
 		w := NewWorld(c)
-		enc.Encode(M{"genesis": M{"env": w.EnvJSON(), "state": w.Dump(c.Ctx())}, "hist": h.id, "profile": h.profile})
+		enc.Encode(M{"genesis": M{"env": w.EnvJSON(), "state": w.Dump(w.C.Ctx())}, "hist": h.id, "profile": h.profile})
 		for i := range h.ops {
 			res, o := w.Exec(&h.ops[i])
 			if restarts {
 				resetGlobals()
 			}
-			enc.Encode(M{"i": i, "op": o, "res": res, "state": w.Dump(c.Ctx()), "raw": h.ops[i]})
+			enc.Encode(M{"i": i, "op": o, "res": res, "state": w.Dump(w.C.Ctx()), "raw": h.ops[i]})
 			if res.Res == "hang" {
 				wr.Flush()
 				os.Exit(0)
